@@ -336,7 +336,7 @@ macro_rules! gen_types {
 }
 
 gen_types!(
-    Scalars, Leaf, Annot, Containers, Defaults, Choice, Typed, Nothing, Unit, Oops, Tree, Forest, Outer,
+    Scalars, Leaf, Annot, Containers, Defaults, Choice, Typed, Nothing, Unit, Oops, Tree, Forest, Outer, Expr, BinaryOp, UnaryOp,
     SvcPingArgsRecv, SvcPingArgsSend, SvcPingResultRecv, SvcPingResultSend,
     SvcEchoArgsRecv, SvcEchoArgsSend, SvcEchoResultRecv, SvcEchoResultSend, SvcEchoException,
     SvcCountArgsRecv, SvcCountArgsSend, SvcCountResultRecv, SvcCountResultSend,
